@@ -50,7 +50,52 @@ pub type GenQ = DefaultQmc<SharedRng>;
 #[derive(Clone)]
 pub enum Smp {
     Ising(IsingQ, Vec<((usize, usize), f64)>),
-    Gen(GenQ, Vec<Vec<usize>>),
+    Gen(GenQ, Vec<RegBond>),
+}
+
+/// One registered interaction of a generic sampler: its variables and — when the harness registered it itself — the full
+/// matrix it handed to `make_interaction` / `make_diagonal_interaction` (index = outputs ++ inputs, first variable most
+/// significant: the documented convention). `None` for interactions the library built (`into_qmc`).
+#[derive(Clone, Debug)]
+pub struct RegBond {
+    pub vars: Vec<usize>,
+    pub mat: Option<Vec<f64>>,
+}
+pub fn reg(vars: Vec<usize>, mat: Vec<f64>) -> RegBond {
+    RegBond { vars, mat: Some(mat) }
+}
+pub fn full_from_diag(d: &[f64]) -> Vec<f64> {
+    let dim = d.len();
+    let mut m = vec![0.0; dim * dim];
+    for s in 0..dim {
+        m[s * dim + s] = d[s];
+    }
+    m
+}
+
+/// `Interaction::at` of every registered interaction returns the registered entry for every input/output pattern
+/// (documented index: outputs ++ inputs, first variable most significant; diagonal tables: inputs only).
+pub fn check_registered(smp: &Smp) -> Result<(), String> {
+    if let Smp::Gen(q, regs) = smp {
+        for (b, (int, rb)) in q.get_bonds().iter().zip(regs.iter()).enumerate() {
+            if let Some(mat) = &rb.mat {
+                let pats = patterns(rb.vars.len());
+                let dim = pats.len();
+                for (oi, o) in pats.iter().enumerate() {
+                    for (ii, i) in pats.iter().enumerate() {
+                        let got = int.at(i, o).unwrap_or(f64::NAN);
+                        if got != mat[oi * dim + ii] {
+                            return Err(format!(
+                                "interaction {} on variables {:?}: at(inputs {}, outputs {}) = {} but the registered matrix element is {}",
+                                b, rb.vars, bits(i), bits(o), got, mat[oi * dim + ii]
+                            ));
+                        }
+                    }
+                }
+            }
+        }
+    }
+    Ok(())
 }
 
 pub fn patterns(n: usize) -> Vec<Vec<bool>> {
@@ -153,19 +198,27 @@ impl Smp {
                 }
                 out
             }
-            Smp::Gen(q, vars) => q
+            // the reference is what was REGISTERED (the matrices handed to the constructors); `Interaction::at` is only used for
+            // interactions the library built itself (`into_qmc`) — `check_registered` compares the two
+            Smp::Gen(q, regs) => q
                 .get_bonds()
                 .iter()
-                .zip(vars.iter())
-                .map(|(int, vs)| {
-                    let pats = patterns(vs.len());
-                    let mut mat = vec![];
-                    for o in &pats {
-                        for i in &pats {
-                            mat.push(int.at(i, o).unwrap());
+                .zip(regs.iter())
+                .map(|(int, rb)| {
+                    let mat = match &rb.mat {
+                        Some(m) => m.clone(),
+                        None => {
+                            let pats = patterns(rb.vars.len());
+                            let mut mat = vec![];
+                            for o in &pats {
+                                for i in &pats {
+                                    mat.push(int.at(i, o).unwrap());
+                                }
+                            }
+                            mat
                         }
-                    }
-                    TableBond { vars: vs.clone(), constant: int.is_constant(), mat }
+                    };
+                    TableBond { vars: rb.vars.clone(), constant: int.is_constant(), mat }
                 })
                 .collect(),
         }
@@ -328,13 +381,36 @@ pub fn gen_interaction(g: &mut SplitMix64, nvars: usize) -> (Vec<f64>, Vec<usize
     }
     let dim = 1usize << k;
     if k >= 3 {
-        // many-body diagonal term through `make_diagonal_interaction`, maximum at a controlled sub-state
-        let d = gen_multi_diag(g, k);
+        let r = g.below(4);
         let mut mat = vec![0.0; dim * dim];
+        // diagonal: maximum at a controlled sub-state (r = 0), or pairwise DISTINCT entries (i+1)/8 in random order with a few
+        // zeros — not symmetric under reversing the variable order, zeros at non-palindromic patterns included
+        let d: Vec<f64> = if r == 0 {
+            gen_multi_diag(g, k)
+        } else {
+            let mut perm: Vec<usize> = (0..dim).collect();
+            for i in (1..dim).rev() {
+                perm.swap(i, g.below(i as u64 + 1) as usize);
+            }
+            (0..dim).map(|s| if g.chance(1, 5) { 0.0 } else { (perm[s] + 1) as f64 / 8.0 }).collect()
+        };
         for s in 0..dim {
             mat[s * dim + s] = d[s];
         }
-        return (mat, vars, true);
+        // full-matrix constructor (64 / 256 entries) with a few off-diagonal elements for 3 variables, rarely for 4
+        let full = r == 3 && (k == 3 || g.chance(1, 4));
+        if full {
+            for _ in 0..g.range(1, 6) {
+                let (o, i) = (g.below(dim as u64) as usize, g.below(dim as u64) as usize);
+                if o != i {
+                    mat[o * dim + i] = *g.pick(&[0.25, 0.5, 1.0]);
+                }
+            }
+            stat(&format!("multivar_full_matrix_k{}", k), 1);
+        } else if r != 0 {
+            stat(&format!("multivar_distinct_diagonal_k{}", k), 1);
+        }
+        return (mat, vars, !full);
     }
     let diag_ctor = g.chance(1, 3);
     let constant = !diag_ctor && k == 1 && g.chance(1, 2);
@@ -376,13 +452,13 @@ pub fn gen_generic(g: &mut SplitMix64, rng: &SharedRng) -> Smp {
         if g.chance(3, 4) {
             let w = *g.pick(&[0.5, 1.0]);
             q.make_interaction(vec![w; 4], vec![v]).unwrap();
-            vars_list.push(vec![v]);
+            vars_list.push(reg(vec![v], vec![w; 4]));
         }
     }
     for _ in 0..g.range(1, 3) {
         let (mat, vars, d) = gen_interaction(g, nvars);
         add_interaction(&mut q, &mat, &vars, d).unwrap();
-        vars_list.push(vars);
+        vars_list.push(reg(vars, mat));
     }
     Smp::Gen(q, vars_list)
 }
@@ -410,18 +486,18 @@ pub fn gen_generic_multi(g: &mut SplitMix64, rng: &SharedRng) -> Smp {
     }
     let mut q = GenQ::new_with_state(nvars, rng.clone(), state, g.coin());
     let mut vars_list = vec![];
-    q.make_diagonal_interaction(d, vars.clone()).unwrap();
-    vars_list.push(vars);
+    q.make_diagonal_interaction(d.clone(), vars.clone()).unwrap();
+    vars_list.push(reg(vars, full_from_diag(&d)));
     for v in 0..nvars {
         if g.chance(1, 3) {
             q.make_interaction(vec![0.5; 4], vec![v]).unwrap();
-            vars_list.push(vec![v]);
+            vars_list.push(reg(vec![v], vec![0.5; 4]));
         }
     }
     if g.coin() {
         let (mat, vars, dg) = gen_interaction(g, nvars);
         add_interaction(&mut q, &mat, &vars, dg).unwrap();
-        vars_list.push(vars);
+        vars_list.push(reg(vars, mat));
     }
     Smp::Gen(q, vars_list)
 }
@@ -544,13 +620,13 @@ pub fn convert_to_generic(smp: Smp) -> Option<(Smp, usize)> {
         let l = q.get_cutoff();
         let nvars = q.get_nvars();
         let h = serde_json::to_value(&q).unwrap()["longitudinal"].as_f64().unwrap();
-        let mut vars_list: Vec<Vec<usize>> = edges.iter().map(|((a, b), _)| vec![*a, *b]).collect();
+        let mut vars_list: Vec<RegBond> = edges.iter().map(|((a, b), _)| RegBond { vars: vec![*a, *b], mat: None }).collect();
         for v in 0..nvars {
-            vars_list.push(vec![v]);
+            vars_list.push(RegBond { vars: vec![v], mat: None });
         }
         if h.abs() > f64::EPSILON {
             for v in 0..nvars {
-                vars_list.push(vec![v]);
+                vars_list.push(RegBond { vars: vec![v], mat: None });
             }
         }
         let gq: GenQ = catch(|| q.into_qmc()).ok()?;
@@ -566,7 +642,7 @@ pub fn convert_to_generic(smp: Smp) -> Option<(Smp, usize)> {
 /// anywhere in the string is gone afterwards. Returns false if the step panicked.
 pub fn emit_sweep(smp: &mut Smp, rng: &SharedRng, beta: f64, label: &str, heat: bool, expect_cutoff: Option<usize>, drain: bool) -> bool {
     let beta = if drain { 1e-12 } else { beta };
-    let mut pre = check_count(smp, "before the diagonal step").and_then(|_| check_labels(smp, "before the diagonal step"));
+    let mut pre = check_registered(smp).and_then(|_| check_count(smp, "before the diagonal step")).and_then(|_| check_labels(smp, "before the diagonal step"));
     let cfg = cfg_of(smp, beta);
     if let (Ok(()), Some(l)) = (&pre, expect_cutoff) {
         if cfg.cutoff != l {
@@ -716,6 +792,10 @@ pub fn prob_on(g: &mut SplitMix64, rng: &SharedRng, smp: Smp, kind: &str, beta: 
         emit(true, &format!("label-mismatch {}", kind), "BAD", Some(Err(e)));
         return true;
     }
+    if let Err(e) = check_registered(&smp) {
+        emit(true, &format!("registered-mismatch {} {}", kind, show_table_ham(&smp.bonds())), "BAD", Some(Err(e)));
+        return true;
+    }
     let base = smp.clone();
     let cfg = cfg_of(&base, beta);
     let l = cfg.cutoff;
@@ -780,8 +860,21 @@ pub fn prob_on(g: &mut SplitMix64, rng: &SharedRng, smp: Smp, kind: &str, beta: 
         stat(&format!("prob_multivar_at_argmax_{}", bit_index(substate(&st_k, &cfg.bonds[multi[0]].vars).iter())), 1);
         multi[0]
     } else {
-        *g.pick(&cands)
+        // prefer a many-body bond: its weight lookup depends on the order of its variables
+        let many: Vec<usize> = cands.iter().cloned().filter(|b| cfg.bonds[*b].vars.len() >= 3).collect();
+        if !many.is_empty() && g.coin() {
+            *g.pick(&many)
+        } else {
+            *g.pick(&cands)
+        }
     };
+    {
+        let sub = substate(&st_k, &cfg.bonds[b].vars);
+        if sub.len() >= 3 {
+            let rev: Vec<bool> = sub.iter().rev().cloned().collect();
+            stat(if rev != sub { "prob_manybody_bond_nonpalindromic_substate" } else { "prob_manybody_bond_palindromic_substate" }, 1);
+        }
+    }
     let w = diag_weight(&cfg.bonds[b], &substate(&st_k, &cfg.bonds[b].vars));
     // prefix: one word per visited slot before k; 0 removes a diagonal op, MAX keeps / leaves empty
     let mut groups: Vec<Vec<u64>> = vec![];
@@ -975,6 +1068,10 @@ pub fn prob_on(g: &mut SplitMix64, rng: &SharedRng, smp: Smp, kind: &str, beta: 
 /// Oracle: (1/Nb)·p_acc / p_rem = β·w_b/(L−n_k) with w_b from the registered matrices; a bond of weight 0 is never inserted.
 pub fn mprob_fresh(g: &mut SplitMix64, rng: &SharedRng, mut smp: Smp, kind: &str, b: usize, pre: usize) -> bool {
     enable_heatbath(&mut smp, false);
+    if let Err(e) = check_registered(&smp) {
+        emit(true, &format!("registered-mismatch {} {}", kind, show_table_ham(&smp.bonds())), "BAD", Some(Err(e)));
+        return true;
+    }
     let bonds = smp.bonds();
     let nb = bonds.len();
     if nb == 0 || b >= nb || pre >= nb || count_ops(&smp.slots()) != 0 {
